@@ -67,6 +67,17 @@ def str_to_pascal_case(name: str) -> str:
     return "".join(n[:1].upper() + n[1:] for n in name.split("_"))
 
 
+def _escape_multiline_string_line(line: str) -> str:
+    """Escapes a line so that it can be placed inside of triple-quoted string."""
+    escaped = "".join(
+        char
+        if char.isprintable() and char != "\\"
+        else char.encode("unicode_escape").decode("ascii")
+        for char in line
+    )
+    return escaped.replace('"""', '\\"\\"\\"')
+
+
 def convert_to_multiline_string(
     source: str, variable_indent_size: int = 8, offset: int = 4
 ) -> str:
@@ -79,7 +90,15 @@ def convert_to_multiline_string(
         ghi
         \"\"\"
     """
-    joined_source = source.replace("\\n", "\n").replace("'", "")
+    try:
+        value = ast.literal_eval(source)
+        if not isinstance(value, str):
+            raise ValueError(source)
+        joined_source = "\n".join(
+            _escape_multiline_string_line(line) for line in value.split("\n")
+        )
+    except (SyntaxError, ValueError):
+        joined_source = source.replace("\\n", "\n").replace("'", "")
     if joined_source.endswith("\n"):
         joined_source += '"""'
     else:
@@ -99,9 +118,10 @@ def format_multiline_strings(source: str, offset: int = 4) -> str:
     """Fromats multiline string declarations."""
     formatted_source = source
     for match in re.finditer(r".*?=.*?('.*?'\s*){2,}", source):
-        line = match.group()
+        line_end = source.find("\n", match.start())
+        line = source[match.start() : line_end if line_end != -1 else len(source)]
         variable_indent_size = get_variable_indent_size(line)
-        orginal_str_match = re.search("'.*'", line)
+        orginal_str_match = re.search("['\"].*['\"]", line)
         if orginal_str_match:
             orginal_str = orginal_str_match.group()
             formatted = convert_to_multiline_string(
